@@ -63,6 +63,7 @@ CONSTANTS Cfgs,     \* sequence of [K, nr, nt, ns, nte, jp, amps] - antenna / st
           Chains,   \* sequence of [parts : sequence of configurations with equal K, sources and antenna totals,
                     \*              ops : sequence over {"init", "reinit", "power"} starting with "init"]
           HLo, HHi, \* chain configurations explored by this run (HLo > HHi: none)
+          VLo, VHi, \* capacity-vector numbers explored by this run (VLo > VHi: none)
           Lo, Hi,   \* case / chain numbers explored by this run
           Seed,     \* seed of the in-spec pseudo-random stream
           Dev       \* [name |-> BOOLEAN]
@@ -90,12 +91,15 @@ AlphaNZ == SubSeq(Alpha, 2, 6)
 \* amplitude alphabets (power = amplitude^2).  Set 1 is integral (used where the solver's
 \* zero-forcing filter multiplies magnitudes: 32-bit integers), set 2 has halves.
 AmpSets == << << <<1, 1>>, <<2, 1>>, <<3, 1>> >>,
-              << <<1, 1>>, <<1, 2>>, <<2, 1>>, <<3, 2>>, <<3, 1>>, <<1, 2>>, <<2, 1>>, <<0, 1>> >> >>   \* incl. a ZERO path loss
+              << <<1, 1>>, <<1, 2>>, <<2, 1>>, <<3, 2>>, <<3, 1>>, <<1, 2>>, <<2, 1>>, <<0, 1>> >>,   \* incl. a ZERO path loss
+              << <<1, 1>> >> >>            \* set 3: unit gains (two-stream aligned regime: exact null vectors multiply magnitudes)
 PaSets  == << << <<1, 1>>, <<2, 1>> >>,
-              << <<1, 1>>, <<2, 1>>, <<1, 2>>, <<3, 2>> >> >>
+              << <<1, 1>>, <<2, 1>>, <<1, 2>>, <<3, 2>> >>,
+              << <<1, 1>>, <<2, 1>> >> >>
 PeSet   == << <<1, 1>>, <<0, 1>>, <<1, 2>>, <<2, 1>>, <<3, 2>> >>      \* <<1,1>> = the default argument
 ScSet   == << <<2, 0, 1>>, <<-1, 0, 3>>, <<0, 1, 1>>, <<1, 1, 2>>, <<-3, 0, 2>> >>   \* 2, -1/3, i, (1+i)/2, -3/2
 GaSet   == << <<1, 2>>, <<2, 1>>, <<3, 1>> >>                          \* channel gain factors (amplitude) of the twin case
+TnSet   == << <<1, 1>>, <<1, 4>>, <<3, 1>> >>                          \* extra factor on the noise variance of the twin case
 \* noise variance: None, 0, 1/2 and the integral values 1, 2 (the harness hands integral values over as Python int,
 \* numpy integer, float32, float64 in turn: the demanded value depends on the NUMBER, not on its representation)
 NoiseTags == <<"none", "zero", "half", "one", "two">>
@@ -121,7 +125,7 @@ MkFrom(g, x0, unz, plOn) ==
       oP == oU + 4 * K                    \* power amplitudes
       oL == oP + K                        \* path-loss amplitudes K x (K + Ke)
       oX == oL + K * (K + Ke)             \* path loss on/off, noise, pe, scale constant
-      s  == Str(x0, oX + 5)
+      s  == Str(x0, oX + 6)
       am == AmpSets[g.amps]
       pw == PaSets[g.amps]
   IN [ id |-> <<0, 0>>, chain |-> <<>>, step |-> 0, op |-> FreshOp, scr |-> <<>>,
@@ -138,9 +142,8 @@ MkFrom(g, x0, unz, plOn) ==
        noise |-> NoiseTags[Pk(s, oX + 2, 5)], nsc |-> ROne,
        pe |-> IF Ke = 0 THEN ROne ELSE PeSet[Pk(s, oX + 3, Len(PeSet))],
        sc |-> ScSet[Pk(s, oX + 4, Len(ScSet))],
-       ga |-> GaSet[Pk(s, oX + 5, Len(GaSet))] ]
-\* seeded family: dimensions from Cfgs[ci]
-MkSeeded(ci, n) == [MkFrom(Cfgs[ci], Start(ci, n), FALSE, FALSE) EXCEPT !.id = <<ci, n>>]
+       ga |-> GaSet[Pk(s, oX + 5, Len(GaSet))],
+       tn |-> TnSet[Pk(s, oX + 6, Len(TnSet))] ]
 
 \* exhaustive family (configuration index 0): K = 2, every block 1 x 1, one stream each; case
 \* number n in 0..3887 enumerates ALL 6^4 channel matrices over the alphabet x the three noise
@@ -148,7 +151,7 @@ MkSeeded(ci, n) == [MkFrom(Cfgs[ci], Start(ci, n), FALSE, FALSE) EXCEPT !.id = <
 ExhCount == 3888
 MkExh(n) ==
   LET hd == n % 1296
-      s  == Str(Start(0, n), 13)
+      s  == Str(Start(0, n), 14)
       am == AmpSets[2]
       pw == PaSets[2]
   IN [ id |-> <<0, n>>, chain |-> <<>>, step |-> 0, op |-> FreshOp, scr |-> <<>>,
@@ -163,9 +166,9 @@ MkExh(n) ==
        noise |-> NoiseTags[(n \div 1296) + 1], nsc |-> ROne,
        pe |-> ROne,
        sc |-> ScSet[Pk(s, 12, Len(ScSet))],
-       ga |-> GaSet[Pk(s, 13, Len(GaSet))] ]
+       ga |-> GaSet[Pk(s, 13, Len(GaSet))],
+       tn |-> TnSet[Pk(s, 14, Len(TnSet))] ]
 
-MkCase(ci, n) == IF ci = 0 THEN MkExh(n) ELSE MkSeeded(ci, n)
 
 (* ------------------------------ (1) first principles ------------------------------------------- *)
 NtAll(c)     == c.nt \o c.nte
@@ -180,11 +183,46 @@ HBlk(c, k, j) == [a \in 1..c.nr[k] |-> [b \in 1..NtAll(c)[j] |->
 \* channel from ALL users' transmit antennas (no external source) to receiver k
 HRow(c, k)    == [a \in 1..c.nr[k] |-> [t \in 1..NumT(c) |->
                     GScaleRat(Amp(c, k, Owner(c.nt, t)), c.H[Off(c.nr, k) + a][t])]]
+(* ----- the aligned regime (configurations with zf = TRUE; single-antenna receivers, one stream each): the
+   precoder of user j is a null vector of the channels towards every OTHER receiver (block diagonalisation /
+   zero forcing in miniature), so that the interference power is EXACTLY zero: with a noise variance the
+   SINR is sig / noise (any magnitude through tn), without one it is infinite.                              *)
+ZfRow(c, k, j) == IF c.jp THEN HRow(c, k)[1] ELSE HBlk(c, k, j)[1]
+NullOf(r)      == IF Len(r) = 2 THEN <<r[2], GNeg(r[1])>> ELSE <<r[2], GNeg(r[1]), GZero>>
+Cross(r, q)    == << GSub(GMul(r[2], q[3]), GMul(r[3], q[2])), GSub(GMul(r[3], q[1]), GMul(r[1], q[3])),
+                     GSub(GMul(r[1], q[2]), GMul(r[2], q[1])) >>
+ZfF1(c) == [j \in 1..c.K |->
+             LET v == IF c.K = 2 THEN NullOf(ZfRow(c, 3 - j, j))
+                      ELSE Cross(ZfRow(c, IF j = 1 THEN 2 ELSE 1, j), ZfRow(c, IF j = 3 THEN 2 ELSE 3, j))
+             IN  [a \in 1..Len(v) |-> <<v[a]>>]]
+\* two users, two receive antennas, two streams, four (joint) transmit antennas: the two columns of F_j span the
+\* null space of the other receiver's 2 x 4 channel; the receive filter of stream l is orthogonal to the user's
+\* OTHER stream (zero forcing), so that every stream is free of interference - exactly.
+ZfMat(c, k, j) == IF c.jp THEN HRow(c, k) ELSE HBlk(c, k, j)
+ZfF2(c) == [j \in 1..2 |->
+             LET M  == ZfMat(c, 3 - j, j)
+                 v1 == Cross(SubSeq(M[1], 1, 3), SubSeq(M[2], 1, 3)) \o <<GZero>>
+                 v2 == <<GZero>> \o Cross(SubSeq(M[1], 2, 4), SubSeq(M[2], 2, 4))
+             IN  [a \in 1..4 |-> <<v1[a], v2[a]>>]]
+Perp(g) == <<GConj(g[2]), GNeg(GConj(g[1]))>>                     \* Perp(g)^H g = 0
+ZfF(c) == IF c.ns[1] = 2 THEN ZfF2(c) ELSE ZfF1(c)
+\* seeded family: dimensions from Cfgs[ci]
 \* precoders with the transmit power: sqrt(P_j) * F_j
 FullF(c)      == [j \in 1..c.K |-> MScale(GFromRat(c.pa[j]), c.F[j])]
 \* stream d of user j as it arrives at receiver k
 Rx(c, FF, k, j, d) == IF c.jp THEN MatVec(HRow(c, k), Col(FF[j], d))
                               ELSE MatVec(HBlk(c, k, j), Col(FF[j], d))
+ZfU(c) == [k \in 1..2 |-> LET g1 == Rx(c, FullF(c), k, k, 1)
+                               g2 == Rx(c, FullF(c), k, k, 2)
+                               u1 == Perp(g2)
+                               u2 == Perp(g1)
+                           IN  [a \in 1..2 |-> <<u1[a], u2[a]>>]]
+\* seeded family: dimensions from Cfgs[ci]
+MkSeeded(ci, n) == LET g  == Cfgs[ci]
+                       b  == [MkFrom(g, Start(ci, n), g.zf, FALSE) EXCEPT !.id = <<ci, n>>]
+                       b2 == [b EXCEPT !.F = ZfF(b)]
+                   IN  IF ~g.zf THEN b ELSE IF g.ns[1] = 2 THEN [b2 EXCEPT !.U = ZfU(b2)] ELSE b2
+MkCase(ci, n) == IF ci = 0 THEN MkExh(n) ELSE MkSeeded(ci, n)
 RxTab(c, FF)  == Force([k \in 1..c.K |-> [j \in 1..c.K |-> [d \in 1..c.ns[j] |-> Rx(c, FF, k, j, d)]]])
 \* the columns of all external sources as they arrive at receiver k
 ExtCols(c, k) == [e \in 1..Total(c.nte) |->
@@ -205,8 +243,15 @@ PowTab(c, FF, UU, pe) ==
   LET rx == RxTab(c, FF)
       ex == ExtTab(c)
   IN  [k \in 1..c.K |-> [l \in 1..c.ns[k] |-> Pow(c, rx, ex, pe, UU, k, l)]]
-PowValid(c, pt) == \A k \in 1..c.K : \A l \in 1..c.ns[k] : Den(pt[k][l])[1] # 0
-SinrOfPow(c, pt) == [k \in 1..c.K |-> [l \in 1..c.ns[k] |-> RDiv(pt[k][l].sig, Den(pt[k][l]))]]
+\* A stream whose interference-plus-noise power is exactly zero while its signal power is not has an INFINITE
+\* SINR: written <<1, 0>>.  The code may report +inf or a huge positive number (its denominator is then rounding
+\* noise), never a negative number or NaN (NonNegative).  0 / 0 is undefined: such cases are outside the property.
+Inf == <<1, 0>>
+IsInf(q) == q[2] = 0
+SDiv(a, b) == IF b[1] = 0 THEN Inf ELSE RDiv(a, b)
+\* (written without a disjunction: TLC would enumerate the disjuncts of an action guard as separate successors)
+PowValid(c, pt) == \A k \in 1..c.K : \A l \in 1..c.ns[k] : ~(Den(pt[k][l])[1] = 0 /\ pt[k][l].sig[1] = 0)
+SinrOfPow(c, pt) == [k \in 1..c.K |-> [l \in 1..c.ns[k] |-> SDiv(pt[k][l].sig, Den(pt[k][l]))]]
 SinrTab(c, FF, UU, pe) == SinrOfPow(c, PowTab(c, FF, UU, pe))
 
 \* interference(+noise) covariance reported for receiver k, element by element: all streams of
@@ -281,7 +326,7 @@ OutOf(c, pt) ==
       sn == SinrOfPow(c, pt)
   IN [ sinr |-> sn,
        pow |-> pt,
-       onePlus |-> [k \in 1..c.K |-> [l \in 1..c.ns[k] |-> RAdd(ROne, sn[k][l])]],
+       onePlus |-> [k \in 1..c.K |-> [l \in 1..c.ns[k] |-> IF IsInf(sn[k][l]) THEN Inf ELSE RAdd(ROne, sn[k][l])]],
        Q |-> q,
        B |-> BTab(c, FF),
        qtr |-> [k \in 1..c.K |-> GRe(MTrace(q[k]))],
@@ -322,7 +367,7 @@ ASinr(c, FF, UU, k, l) ==                                                       
       aux == MMul(uH, MMul(AChan(c, k, k), AsCol(Col(FF[k], l))))[1][1]
       den == MMul(uH, MMul(AB(c, FF, k, l), u))[1][1]
       dn  == IF Dev.NoiseNotFiltered THEN RAdd(GRe(den), NoiseOf(c)) ELSE GRe(den)
-  IN  IF den[2] # 0 \/ dn[1] = 0 THEN Bad ELSE RDiv(GAbs2(aux), dn)
+  IN  IF den[2] # 0 \/ (dn[1] = 0 /\ GIsZero(aux)) THEN Bad ELSE SDiv(GAbs2(aux), dn)
 ASinrTab(c, FF, UU) == [k \in 1..c.K |-> [l \in 1..c.ns[k] |-> ASinr(c, FF, UU, k, l)]]
 \* calc_Q / calc_JP_Q: sum over the interfering users + external + noise (when set)
 RECURSIVE AQFrom(_, _, _, _, _)
@@ -360,7 +405,7 @@ Pick(ci, n) ==
   /\ inp = NoCase
   /\ LET c  == MkCase(ci, n)
          pt == PowTab(c, FullF(c), c.U, c.pe)
-     IN  /\ PowValid(c, pt)                    \* infinite / undefined SINRs are outside the property
+     IN  /\ PowValid(c, pt)                    \* undefined SINRs (0 / 0) are outside the property
          /\ inp' = c
          /\ out' = OutOf(c, pt)
          /\ cache' = [pa |-> c.pa, part |-> PartOf(c)]
@@ -458,19 +503,49 @@ ChainStep  == /\ inp # NoCase
               /\ inp.op.kind # "scribble"
               /\ inp.step < Len(Chains[inp.chain[1]].ops)
               /\ Step(ChainAttempt(inp, inp.chain[1], inp.chain[2], inp.step + 1))
-Next == PickExhaustive \/ PickSeeded \/ ChainStart \/ ChainStep \/ ChainLeaf
+(* ----- capacity vectors: "sum capacity is the sum of log2(1 + SINR)" for ANY vector of SINRs - long vectors
+   (more streams than any case above has), values from 1e-7 to 1e+15, zeros.  An entry <<m, d, e>> is the SINR
+   (m / d) * 10^e.  log2 is transcendental: the harness evaluates sum log2(1 + SINR) from these exact numbers;
+   the laws it owes are named here: the value does not depend on the order of the entries
+   (CapacityPermutationInvariant) and the capacity of a concatenation is the sum of the capacities
+   (CapacityAdditive, split after `cut` entries); every term is >= 0, so the result is finite and >= 0.          *)
+CvLens  == <<1, 2, 5, 21, 24, 33, 48>>
+CvMants == << <<0, 1>>, <<1, 2>>, <<1, 1>>, <<3, 2>>, <<2, 1>>, <<7, 3>>, <<9, 1>> >>
+CvExps  == <<-7, -3, 0, 0, 3, 7, 15, 15>>
+CvHot   == <<15, 15, 7, 15>>                     \* the noise-free regime: every stream ~ 1e15
+MkCapVec(n) ==
+  LET s0  == Str(Start(300, n), 3)
+      L   == CvLens[Pk(s0, 1, Len(CvLens))]
+      hot == Pk(s0, 2, 2) = 1
+      s   == Str(Start(301, n), 2 * L)
+  IN [ id |-> <<-2, n>>, chain |-> <<>>, step |-> 0, op |-> [kind |-> "capvec", pl |-> "", pw |-> ""],
+       cut |-> Pk(s0, 3, L + 1) - 1,
+       cv |-> [i \in 1..L |-> LET m == CvMants[Pk(s, 2 * i - 1, Len(CvMants))]
+                               IN  <<m[1], m[2], IF hot THEN CvHot[Pk(s, 2 * i, Len(CvHot))] ELSE CvExps[Pk(s, 2 * i, Len(CvExps))]>>] ]
+PickCapVec == \E n \in VLo..VHi :
+                /\ inp = NoCase
+                /\ inp' = MkCapVec(n)
+                /\ out' = [sinr |-> <<>>, req |-> <<"ArgumentsUnchanged", "CapacityPermutationInvariant", "CapacityAdditive">>]
+                /\ UNCHANGED cache
+CapVecWellFormed == (inp # NoCase /\ inp.op.kind = "capvec") =>
+                       /\ inp.cut \in 0..Len(inp.cv)
+                       /\ \A i \in 1..Len(inp.cv) : inp.cv[i][1] >= 0 /\ inp.cv[i][2] > 0      \* every 1 + SINR is >= 1
+
+Next == PickExhaustive \/ PickSeeded \/ ChainStart \/ ChainStep \/ ChainLeaf \/ PickCapVec
 
 Emit == EmitCase([inp |-> inp', out |-> out'])
 
 (* ---------------------------------------- the laws --------------------------------------------- *)
-Has == inp # NoCase
+Has == inp # NoCase /\ inp.op.kind # "capvec"
 Streams(c) == {kl \in (1..c.K) \X (1..2) : kl[2] <= c.ns[kl[1]]}
 
 TypeOK == Has => /\ inp.K \in 2..3 /\ inp.step >= 0 /\ (inp.chain = <<>> <=> inp.step = 0) /\ Len(inp.nr) = inp.K /\ Len(inp.nt) = inp.K /\ Len(inp.ns) = inp.K
                  /\ Len(out.sinr) = inp.K
                  /\ \A k \in 1..inp.K : Len(out.sinr[k]) = inp.ns[k]
 
-NonNegative == Has => \A kl \in Streams(inp) : out.sinr[kl[1]][kl[2]][1] >= 0 /\ out.sinr[kl[1]][kl[2]][2] > 0
+NonNegative == Has => \A kl \in Streams(inp) :
+                  LET q == out.sinr[kl[1]][kl[2]]
+                  IN  q[1] >= 0 /\ q[2] >= 0 /\ (q[2] = 0 => q = Inf)      \* finite and >= 0, or +infinity; never negative
 
 \* the cached quantities were computed from the current inputs
 CachesFresh == Has => /\ cache.pa = inp.pa
@@ -480,8 +555,10 @@ CachesFresh == Has => /\ cache.pa = inp.pa
 \* (path-loss amplitude, external sources included) by inp.ga and the noise variance by inp.ga^2.
 \* Each of the four power terms is homogeneous - it is multiplied by |sc|^2 ga^2 - so no SINR changes.
 \* Because the terms scale one by one the law extends to factors of any magnitude.
+\* The noise variance carries one more factor inp.tn that touches the noise term ALONE: the SINR of the twin is
+\* sig / (intf + ext + tn * nse) - again for any magnitude of tn (tiny noise: huge but finite SINRs).
 Twin(c) == [c EXCEPT !.pl  = [k \in 1..c.K |-> [j \in 1..(c.K + Len(c.nte)) |-> RMul(c.ga, Amp(c, k, j))]],
-                     !.nsc = RMul(c.nsc, RSq(c.ga)),
+                     !.nsc = RMul(RMul(c.nsc, RSq(c.ga)), c.tn),
                      !.U   = [k \in 1..c.K |-> MScale(c.sc, c.U[k])]]
 ScaleInvariant == Has =>
   LET t  == Twin(inp)
@@ -491,11 +568,17 @@ ScaleInvariant == Has =>
             LET p == pt[kl[1]][kl[2]]
                 b == out.pow[kl[1]][kl[2]]
             IN  /\ p.sig = RMul(f, b.sig) /\ p.intf = RMul(f, b.intf)
-                /\ p.ext = RMul(f, b.ext) /\ p.nse = RMul(f, b.nse)
-      /\ SinrOfPow(t, pt) = out.sinr
+                /\ p.ext = RMul(f, b.ext) /\ p.nse = RMul(RMul(f, inp.tn), b.nse)
+      /\ SinrOfPow(t, pt) = [k \in 1..inp.K |-> [l \in 1..inp.ns[k] |->
+                                LET b == out.pow[k][l]
+                                IN  SDiv(b.sig, RAdd(RAdd(b.intf, b.ext), RMul(inp.tn, b.nse)))]]
 \* the interference covariance of the twin is ga^2 times the original one (it does not depend on U)
-QScales == Has => LET t == Twin(inp)
-                  IN  QTab(t, FullF(t)) = [k \in 1..inp.K |-> MScale(GFromRat(RSq(inp.ga)), out.Q[k])]
+\* (the sigma^2 I part of Q carries the extra noise factor tn)
+QScales == Has => LET t  == Twin(inp)
+                      nI == [k \in 1..inp.K |-> IF HasNoise(inp) THEN MScale(GFromRat(NoiseOf(inp)), MIdent(inp.nr[k]))
+                                                                 ELSE MZero(inp.nr[k], inp.nr[k])]
+                  IN  QTab(t, FullF(t)) = [k \in 1..inp.K |->
+                         MScale(GFromRat(RSq(inp.ga)), MAdd(MSub(out.Q[k], nI[k]), MScale(GFromRat(inp.tn), nI[k])))]
 
 \* Hermitian; positive semidefinite decided exactly by the principal minors (Nr <= 2)
 QHermitianPSD == Has => \A k \in 1..inp.K :
@@ -531,7 +614,7 @@ DenIsQuadraticForm == Has =>
            own == RSumSeq([d \in 1..inp.ns[k] |-> IF d = l THEN RZero ELSE GAbs2(Inner(u, rx[k][k][d]))])
        IN  /\ Inner(u, MatVec(out.Q[k], u))[2] = 0
            /\ RAdd(qf, own) = Den(pt[k][l])
-           /\ out.sinr[k][l] = RDiv(pt[k][l].sig, RAdd(qf, own))
+           /\ out.sinr[k][l] = SDiv(pt[k][l].sig, RAdd(qf, own))
 
 \* B_kl = Q_k + own other streams (matrix form)
 BIsQPlusOwn == Has =>
@@ -563,6 +646,7 @@ SolverAlgMatches == (Has /\ out.sol.ok) =>
 
 \* every term of the sum capacity is log2 of a rational >= 1
 CapacityTerms == Has => \A kl \in Streams(inp) :
-                    /\ RLe(ROne, out.onePlus[kl[1]][kl[2]])
-                    /\ RSub(out.onePlus[kl[1]][kl[2]], ROne) = out.sinr[kl[1]][kl[2]]
+                    LET t == out.onePlus[kl[1]][kl[2]]
+                    IN  IF IsInf(t) THEN IsInf(out.sinr[kl[1]][kl[2]])
+                        ELSE RLe(ROne, t) /\ RSub(t, ROne) = out.sinr[kl[1]][kl[2]]
 =============================================================================
